@@ -63,3 +63,12 @@ package xmldsig
 //@   on call crypto/hmac.Equal(a, b) ret (r): refOK = (r && sameslice(b, refDigest) && sameslice(a, refGiven))
 //@   ensures @signature_value_and_reference_digest_both_checked ret1 == nil ==> sigOK && refOK && canons == 2
 //@   loop 1 sig "for _, cert := range certs" invariant -1 <= rangeindex && rangeindex < len(certs) && len(certs) > 0 && (rangeindex >= 0 && err == nil ==> sigOK) && canons == 1 && !removed && !refOK
+//@
+//@ func usesSpace
+//@   property C19
+//@   requires elem != nil
+//@   ensures @the_default_namespace_is_used_by_the_element_name_only space == "" ==> ret0 == (elem.Space == "")
+//@   ensures @a_prefix_is_used_by_the_element_or_one_of_its_attributes space != "" ==> \
+//@        ret0 == (elem.Space == space || exists(k, 0, len(elem.Attr), elem.Attr[k].Space == space))
+//@   loop 0 sig "for _, attr := range elem.Attr" invariant forall(k, 0, rangeindex + 1, elem.Attr[k].Space != space) && space != "" && elem.Space != space
+//@   modifies nothing
